@@ -453,6 +453,10 @@ class AsyncClient(base_client.BaseClient):
         if namespace in self.namespaces:
             del self.namespaces[namespace]
         if namespace == '/':
+            # the refusal of the default namespace ends the whole connection:
+            # close the transport, so that the other namespaces are reported
+            # as disconnected and no CONNECT still in flight is accepted
+            await self.eio.disconnect(abort=True)
             self.namespaces = {}
             self.connected = False
 
